@@ -28,7 +28,21 @@ func runC15(c *Check) {
 	c.Doc("C15-R3", "VP: root purity and key sorting.")
 	c.Doc("C15-R4", "GA: idempotent InitChain.")
 	m := func(n string) *ssa.Function { return p.MustFunc("(*" + kvPkg + ".KVExecutor)." + n) }
-	exec, root, initc, final := m("ExecuteTxs"), m("computeStateRoot"), m("InitChain"), m("SetFinal")
+	exec, initc, final := m("ExecuteTxs"), m("InitChain"), m("SetFinal")
+	var root *ssa.Function
+	for _, cal := range staticCalleesOf(p, exec) {
+		for _, b := range cal.Blocks {
+			for _, in := range b.Instrs {
+				if call, ok := in.(*ssa.Call); ok && strings.HasPrefix(commonName(call.Common()), "(github.com/ipfs/go-datastore.") && strings.HasSuffix(commonName(call.Common()), ").Query") {
+					root = cal
+				}
+			}
+		}
+	}
+	if root == nil {
+		c.Unk("C15-R3", "state-root-function", "", "", "anchor lost: the function ExecuteTxs calls to compute the state root")
+		return
+	}
 
 	// global key variables -> string (from the package initialiser)
 	globals := map[string]string{}
